@@ -116,6 +116,8 @@ inductive Op where
   | self                               -- acc += pthread_equal(self, self)
   | chk (t : Nat)                      -- after join t: acc += 2*equal(id, its self) + not equal(id, my self)
   | fin (n : Nat)                      -- main_exit family: the n-th caller prints the result
+  | nsleepbad                          -- acc += 1 iff nanosleep({0, 2e9}) = -1 with errno EINVAL
+  | kmax                               -- acc += 1 iff creating keys until failure ends with EAGAIN
   deriving Repr
 
 structure Thread where
@@ -271,6 +273,7 @@ def exec (m : Machine) (i : Nat) : Machine :=
     | .self => accAdd (pop m) 1
     | .chk _ => accAdd (pop m) 3
     | .fin _ => pop { m with fins := m.fins + 1 }
+    | .nsleepbad | .kmax => accAdd (pop m) 1
 
 def firstEnabled (m : Machine) : Option Nat :=
   (List.range m.th.size).find? (enabled m)
@@ -326,6 +329,8 @@ def parseOp (tok : String) : Option Op :=
   | ["self"] => some .self
   | ["chk", t] => (n t).map .chk
   | ["fin", k] => (n k).map .fin
+  | ["nsleepbad"] => some .nsleepbad
+  | ["kmax"] => some .kmax
   | _ => none
 
 def words (line : String) : List String := (line.splitOn " ").filter (· ≠ "")
